@@ -31,6 +31,8 @@ func main() {
 		gbrecMain(os.Args[2:])
 	case "parse":
 		parseMain(os.Args[2:])
+	case "props":
+		propsMain(os.Args[2:])
 	default:
 		fmt.Fprintf(os.Stderr, "unknown driver %q\n", os.Args[1])
 		os.Exit(2)
